@@ -86,6 +86,8 @@ class Exec(ExprMixin, StmtMixin, CallMixin):
         a = e.args
         if n in self.defs and len(self.defs[n]) == 3 and self.defs[n][2] == 'parametric':
             return self.parametric_call(n, a, p)
+        if n in self.defs and len(self.defs[n]) == 3 and self.defs[n][2] == 'opaque':
+            return self.opaque_call(n, a, p)
         if n in self.defs:
             params, body = self.defs[n][0], self.defs[n][1]
             if n in self.contract.get('state_independent', ()):
@@ -372,7 +374,7 @@ def _parametric_call(self, n, a, p):
     params, body = self.defs[n][0], self.defs[n][1]
     if len(params) != len(a): raise StaleContract('arity of spec function ' + n)
     vals = [self.ev(x, p) for x in a]
-    hk = tuple(sorted((k, t.get_id()) for k, t in p.heap.items())) + tuple(sorted((k, t.get_id()) for k, t in p.has.items()))
+    hk = heap_key(p)
     ck = (n, hk, tuple(type(v).__name__ + str(getattr(v, 'kind', '')) for v in vals))
     if ck not in self.param_cache:
         q = p.fork(); q.env = {}; syms = []; zs = []
@@ -388,6 +390,44 @@ def _parametric_call(self, n, a, p):
     for c, v in zip(syms, vals):
         for x, y in zip(value_terms(c), value_terms(v)): pairs.append((x, y))
     return subst_value(res, pairs)
+
+
+def _opaque_call(self, n, a, p):
+    """Macro folded into a named predicate over its (integer / list) parameters; the rest of the state it reads must not change
+    inside the function (checked: the key includes the identity of the heap arrays)."""
+    params, body = self.defs[n][0], self.defs[n][1]
+    vals = [self.ev(x, p) for x in a]
+    hk = heap_key(p)
+    ck = ('opaque', self.fn.key, n, hk, tuple(type(v).__name__ + str(getattr(v, 'kind', '')) for v in vals))
+    if ck not in self.param_cache:
+        q = p.fork(); syms = []; zs = []
+        for nm, v in zip(params, vals):
+            c = fresh_like('%s$%s' % (n, nm), v); q.env[nm] = c; syms.append(c); zs += value_terms(c)
+        saved = self.qvars; self.qvars = saved + zs
+        try: res = self.ev(parse_spec(body), q)
+        finally: self.qvars = saved
+        t = self.truthy(res) if not isinstance(res, VInt) else res.t
+        F = self.lemmas.opaque_fn(ck, zs, t)
+        self.param_cache[ck] = (F, isinstance(res, VInt))
+    F, is_int = self.param_cache[ck]
+    args = []
+    for v in vals: args += value_terms(v)
+    return VInt(F(*args)) if is_int else VBool(F(*args))
+
+
+Exec.opaque_call = _opaque_call
+
+
+def heap_key(p):
+    """Identity of the heap state a macro body may read: only arrays that differ from the entry symbols count (arrays are
+    created lazily on first read, which must not change the key)."""
+    from .expr import heap_sym, has_sym
+    out = []
+    for k, t in sorted(p.heap.items()):
+        if not t.eq(heap_sym(k)): out.append((k, t.get_id()))
+    for k, t in sorted(p.has.items()):
+        if not t.eq(has_sym(k)): out.append(('has:' + k, t.get_id()))
+    return tuple(out)
 
 
 def value_terms(v):
@@ -482,6 +522,7 @@ def _verify_lemma(self, name, L):
 
     def clauses(h):
         if isinstance(h, str): return [_Cl(None, h, p, own_defs)]
+        if len(h) == 2: return [_Cl(h[0], h[1], p, own_defs)]       # (name, clause)
         which, key, binding = h
         c = self.contracts[key]; q = p.fork(); q.env = {}
         for n, src in binding.items(): q.env[n] = self.spec_value(src, p)
@@ -503,8 +544,8 @@ def _verify_lemma(self, name, L):
     for h in L.get('hyps', []):
         for cl in clauses(h): p.assume(ev_clause(cl))
     self.vcs.append(VC('cover/hyps', list(p.pc), z3.BoolVal(False), 'cover', 0, self.fn.key, expect='sat'))
-    for lname, binding in L.get('uses', []):
-        self.use_lemma(lname, binding, p, 'uses')
+    for u in L.get('uses', []):
+        self.use_lemma(u[0], u[1], p, 'uses', conditional=(len(u) > 2 and u[2] == 'if-applicable'))
     if 'induct' in L:
         # claim(m) for all lo <= m <= hi, by induction on m: base and step are separate VCs (the induction
         # principle itself is part of the trusted engine)
@@ -557,6 +598,7 @@ def _use_lemma(self, name, binding, p, where, conditional=False):
     try:
         hyps = []
         for i, h in enumerate(L.get('hyps', [])):
+            if isinstance(h, tuple) and len(h) == 2: h = h[1]
             if not isinstance(h, str): raise StaleContract('lemma %s with contract-clause hypotheses cannot be instantiated' % name)
             t = self.spec_eval(h, q); hyps.append(t)
             if not conditional:
